@@ -1,6 +1,211 @@
-(* Properties/C07.v — read-only string maps answer exactly like a Go map. (theorems being added) *)
-From GV Require Import Lib.Bytes Lib.Res Model.StrMap Model.StrStore Spec.StrMap.
+(* Properties/C07.v — read-only string maps answer exactly like a Go map
+   (container/strmap/strmap.go, utils.go; internal/strstore/strstore.go).
+   Only statements; proofs are in Proofs/StrMapP.v and Proofs/StrStoreP.v.
+
+   Quantification: every value type V; EVERY hash function [hash : bytes -> N] (every maphash
+   seed, every collision pattern); EVERY [sort] that returns some permutation of its input ordered
+   by slot ([sort_ok]: covers the unstable sort.Sort); every previous state [st] of the instance
+   (so each statement holds after every reload, growing or shrinking); every probe string.
+   Bounds are the code's own ([loadable]): a key/value longer than math.MaxUint32 bytes is
+   refused ("key too large" / "string too long"); the key count must fit the int32 indices and
+   floor(count / loadfactor) must have at most 31 bits, else calcHashtableSlots panics "too many
+   items" ([count_ok]; with the present load factor 3/4: count < 3*2^29; C07_count_ok_1e5 covers
+   the property's 0..10^5).  The proofs are parametric in the load factor and in the primes
+   (only: at least 32 entries, each in [1, 2^31)).  64-bit int. *)
+From GV Require Import Lib.Bytes Lib.Res Gen.Consts Model.StrMap Model.StrStore Spec.StrMap
+  Proofs.StrMapP Proofs.StrStoreP.
+From Coq Require Import Permutation Sorted.
 Open Scope N_scope.
 
-Theorem C07_placeholder : forall V (hash : bytes -> N), get hash (@new_map V) [] = Ok None.
-Proof. reflexivity. Qed.
+(* ---------------- StrMap[V] ---------------- *)
+
+(* every loaded key returns its value, every other string is absent; the load reports no error *)
+Theorem C07_get_spec : forall V (hash : bytes -> N) sort, sort_ok sort ->
+  forall (st : strmap V) kk vv s,
+  length kk = length vv -> NoDup kk -> loadable kk ->
+  snd (load hash sort st kk vv) = Ok tt /\
+  get hash (fst (load hash sort st kk vv)) s = Ok (assoc kk vv s).
+Proof. exact get_spec. Qed.
+
+Theorem C07_len_spec : forall V (hash : bytes -> N) sort, sort_ok sort ->
+  forall (st : strmap V) kk vv,
+  length kk = length vv -> loadable kk ->
+  map_len (fst (load hash sort st kk vv)) = len kk.
+Proof. exact len_spec. Qed.
+
+(* Item(0), ..., Item(Len()-1) enumerate a permutation of the loaded pairs, without panicking *)
+Theorem C07_items_spec : forall V (hash : bytes -> N) sort, sort_ok sort ->
+  forall (st : strmap V) kk vv,
+  length kk = length vv -> loadable kk ->
+  exists l, enumerate (fst (load hash sort st kk vv)) = Ok l /\ Permutation l (combine kk vv).
+Proof. exact items_spec. Qed.
+
+Theorem C07_item_spec : forall V (hash : bytes -> N) sort, sort_ok sort ->
+  forall (st : strmap V) kk vv,
+  length kk = length vv -> loadable kk ->
+  exists l, Permutation l (combine kk vv) /\
+    forall i, (i < length kk)%nat ->
+      exists kv, nth_error l i = Some kv /\
+                 item_at (fst (load hash sort st kk vv)) (Z.of_nat i) = Ok kv.
+Proof. exact item_spec. Qed.
+
+(* a failed load (lengths differ) returns an error and changes nothing; needs nothing of sort *)
+Theorem C07_load_fail_noop : forall V (hash : bytes -> N) sort (st : strmap V) kk vv,
+  length kk <> length vv -> load hash sort st kk vv = (st, Err 1%Z).
+Proof. exact load_fail_noop. Qed.
+
+(* loaded from zero keys: every key absent *)
+Theorem C07_get_empty : forall V (hash : bytes -> N) sort, sort_ok sort ->
+  forall (st : strmap V) s,
+  snd (load hash sort st [] []) = Ok tt /\ get hash (fst (load hash sort st [] [])) s = Ok None.
+Proof. exact get_empty. Qed.
+
+(* never loaded: every key absent -- not a division by zero (defect D8, repaired) *)
+Theorem C07_get_unloaded : forall V (hash : bytes -> N) s, get hash (@new_map V) s = Ok None.
+Proof. exact get_unloaded. Qed.
+
+(* LoadFromMap: in whatever order the range loop visits the pairs of the Go map *)
+Theorem C07_load_from_map : forall V (hash : bytes -> N) sort, sort_ok sort ->
+  forall (st : strmap V) kk vv visit s,
+  length kk = length vv -> NoDup kk -> loadable kk ->
+  Permutation visit (combine kk vv) ->
+  snd (load_map hash sort st visit) = Ok tt /\
+  get hash (fst (load_map hash sort st visit)) s = Ok (assoc kk vv s) /\
+  map_len (fst (load_map hash sort st visit)) = len kk.
+Proof. exact load_map_spec. Qed.
+
+(* histories: after any sequence of loads on a fresh instance -- growing, shrinking, refused
+   (refused ones may carry anything) -- Get answers like the pairs of the last accepted load,
+   and reports absent if there was none *)
+Theorem C07_history_spec : forall V (hash : bytes -> N) sort, sort_ok sort ->
+  forall (h : list (list bytes * list V)) s,
+  Forall (fun q => length (fst q) = length (snd q) -> NoDup (fst q) /\ loadable (fst q)) h ->
+  get hash (run_loads hash sort new_map h) s = Ok (answer (last_accepted None h) s).
+Proof. exact history_spec. Qed.
+
+(* calcHashtableSlots: every slot count it can return is >= 1 (and fits int32), which is all
+   correctness needs of the prime table; it returns one for every loadable key count *)
+Theorem C07_slots_pos : forall n s, slots n = Ok s -> (1 <= s < 2147483648)%Z.
+Proof. exact slots_range. Qed.
+
+Theorem C07_slots_defined : forall n, count_ok n -> exists s, slots n = Ok s.
+Proof. exact slots_ok. Qed.
+
+(* the key counts the property speaks about (0 .. 10^5) are acceptable, and so is every count
+   below an acceptable one *)
+Theorem C07_count_ok_1e5 : forall n, n <= 100000 -> count_ok n.
+Proof. exact count_ok_1e5. Qed.
+
+(* ---------------- StrStore and Str2Str ---------------- *)
+
+(* Load then Get(idx_i) returns the i-th string, values of any content, whatever was stored before *)
+Theorem C07_strstore_spec : forall st ss, Forall small ss ->
+  exists st' ids, store_load st ss = (st', Ok ids) /\ length ids = length ss /\
+    Forall2 (fun id s => store_get st' id = Ok s) ids ss.
+Proof. exact store_load_spec. Qed.
+
+Theorem C07_str2str_spec : forall (hash : bytes -> N) sort, sort_ok sort ->
+  forall st kk vv s,
+  length kk = length vv -> NoDup kk -> loadable kk -> Forall small vv ->
+  snd (s2s_load hash sort st kk vv) = Ok tt /\
+  s2s_get hash (fst (s2s_load hash sort st kk vv)) s = Ok (assoc kk vv s) /\
+  s2s_len (fst (s2s_load hash sort st kk vv)) = Ok (len kk).
+Proof. exact s2s_spec. Qed.
+
+Theorem C07_str2str_load_from_map : forall (hash : bytes -> N) sort, sort_ok sort ->
+  forall st kk vv visit s,
+  length kk = length vv -> NoDup kk -> loadable kk -> Forall small vv ->
+  Permutation visit (combine kk vv) ->
+  snd (s2s_load_map hash sort st visit) = Ok tt /\
+  s2s_get hash (fst (s2s_load_map hash sort st visit)) s = Ok (assoc kk vv s) /\
+  s2s_len (fst (s2s_load_map hash sort st visit)) = Ok (len kk).
+Proof. exact s2s_load_map_spec. Qed.
+
+Theorem C07_str2str_load_fail_noop : forall (hash : bytes -> N) sort st kk vv,
+  length kk <> length vv -> s2s_load hash sort st kk vv = (st, Err 1%Z).
+Proof. exact s2s_load_fail_noop. Qed.
+
+Theorem C07_str2str_unloaded : forall (hash : bytes -> N) s,
+  s2s_get hash new_s2s s = Ok None /\ s2s_len new_s2s = Ok 0.
+Proof. exact s2s_unloaded. Qed.
+
+(* FINDING (zero value).  The clause "a map that was never loaded reports every key absent rather
+   than failing", read for the zero value Str2Str{} (which LoadFromSlice explicitly supports by
+   creating the inner map and store on demand), is refuted: Get and Len dereference the nil inner
+   map until a load has been accepted.  What remains true: instances from NewStr2Str
+   (C07_str2str_unloaded), and the zero value from its first accepted load on. *)
+Definition C07_str2str_zero_value_statement : Prop :=
+  forall (hash : bytes -> N) s, s2s_get hash zero_s2s s = Ok None /\ s2s_len zero_s2s = Ok 0.
+
+Theorem C07_str2str_zero_value_statement_refuted : ~ C07_str2str_zero_value_statement.
+Proof. exact (fun H => s2s_zero_unloaded_false (fun _ => 0) (H (fun _ => 0))). Qed.
+
+Theorem C07_str2str_zero_value_panics : forall (hash : bytes -> N) s,
+  s2s_get hash zero_s2s s = Panic 6%Z /\ s2s_len zero_s2s = Panic 6%Z.
+Proof. exact s2s_zero_unloaded_panics. Qed.
+
+Theorem C07_str2str_zero_value_partial : forall (hash : bytes -> N) sort, sort_ok sort ->
+  forall kk vv s,
+  length kk = length vv -> NoDup kk -> loadable kk -> Forall small vv ->
+  snd (s2s_load hash sort zero_s2s kk vv) = Ok tt /\
+  s2s_get hash (fst (s2s_load hash sort zero_s2s kk vv)) s = Ok (assoc kk vv s) /\
+  s2s_len (fst (s2s_load hash sort zero_s2s kk vv)) = Ok (len kk).
+Proof. exact s2s_zero_loaded. Qed.
+
+(* ---------------- non-vacuity ---------------- *)
+
+(* the hypothesis on sort is satisfiable: the insertion sort that executes the model *)
+Theorem C07_sort_hypothesis_satisfiable : forall V, sort_ok (@isort V).
+Proof. exact isort_ok. Qed.
+
+(* distinct keys incl. the empty key and prefixes of one another, a constant hash (one chain) *)
+Example C07_nonvacuous_get :
+  let kk := [[]; [97]; [97; 98]; [97; 98; 0]] in
+  let vv := [10; 20; 30; 40]%Z in
+  let h := fun _ : bytes => 12345678901 in
+  length kk = length vv /\ NoDup kk /\ loadable kk /\
+  get h (fst (load h isort new_map kk vv)) [97; 98] = Ok (Some 30%Z) /\
+  get h (fst (load h isort new_map kk vv)) [97; 98; 1] = Ok None /\
+  map_len (fst (load h isort new_map kk vv)) = 4.
+Proof.
+  cbv zeta. split; [reflexivity|]. split.
+  - repeat constructor; cbn [In]; intros H; repeat (destruct H as [H|H]; try discriminate); exact H.
+  - split; [|repeat split; vm_compute; reflexivity].
+    split; [repeat constructor; unfold small; vm_compute; discriminate|split; vm_compute; reflexivity].
+Qed.
+
+Example C07_nonvacuous_history :
+  let h := fun s : bytes => len s in
+  let hist := [([[1]; [2]], [7; 8]%Z); ([[3]], []); ([[2]], [9]%Z); ([], [5]%Z)] in
+  Forall (fun q : list bytes * list Z =>
+            length (fst q) = length (snd q) -> NoDup (fst q) /\ loadable (fst q)) hist /\
+  last_accepted None hist = Some ([[2]], [9]%Z) /\
+  get h (run_loads h isort new_map hist) [2] = Ok (Some 9%Z) /\
+  get h (run_loads h isort new_map hist) [1] = Ok None.
+Proof.
+  cbv zeta. split; [|repeat split; vm_compute; reflexivity].
+  apply Forall_cons; [|apply Forall_cons; [|apply Forall_cons; [|apply Forall_cons; [|apply Forall_nil]]]];
+    cbn [fst snd length]; intros Hq; try discriminate Hq.
+  - split.
+    + repeat constructor; cbn [In]; intros H; repeat (destruct H as [H|H]; try discriminate); exact H.
+    + split; [repeat constructor; unfold small; vm_compute; discriminate|split; vm_compute; reflexivity].
+  - split.
+    + repeat constructor; cbn [In]; tauto.
+    + split; [repeat constructor; unfold small; vm_compute; discriminate|split; vm_compute; reflexivity].
+Qed.
+
+Example C07_nonvacuous_str2str :
+  let h := fun s : bytes => len s in
+  let kk := [[107]; []] in
+  let vv := [[]; [0; 255; 1]] in
+  length kk = length vv /\ NoDup kk /\ loadable kk /\ Forall small vv /\
+  s2s_get h (fst (s2s_load h isort new_s2s kk vv)) [] = Ok (Some [0; 255; 1]) /\
+  s2s_get h (fst (s2s_load h isort new_s2s kk vv)) [107] = Ok (Some []) /\
+  s2s_get h (fst (s2s_load h isort new_s2s kk vv)) [108] = Ok None.
+Proof.
+  cbv zeta. split; [reflexivity|]. split.
+  - repeat constructor; cbn [In]; intros H; repeat (destruct H as [H|H]; try discriminate); exact H.
+  - split; [split; [repeat constructor; unfold small; vm_compute; discriminate|split; vm_compute; reflexivity]|].
+    split; [repeat constructor; unfold small; vm_compute; discriminate|].
+    repeat split; vm_compute; reflexivity.
+Qed.
